@@ -8,6 +8,7 @@ import (
 	"encoding/json"
 	"fmt"
 	"strings"
+	"sync"
 )
 
 // mver is one accepted document version, as sent.
@@ -20,6 +21,14 @@ func (v mver) capInv() map[int]bool {
 	if wf, _ := wellFormed(v.Doc); !wf || v.Doc.Deact {
 		return m
 	}
+	if v.Doc.Shape != nil {
+		// shape documents: the keys the payload AS SENT names for capability invocation, by reference (the key the id
+		// stands for) or embedded; in a well-formed document an id stands for exactly one key
+		for k := range factsOf(v.Doc).capInv {
+			m[k] = true
+		}
+		return m
+	}
 	for _, k := range v.Doc.CapInv {
 		m[k] = true
 	}
@@ -29,7 +38,45 @@ func (v mver) capInv() map[int]bool {
 	return m
 }
 
+// listed: the keys the version lists as verificationMethod entries (what a kid can name).
+func (v mver) listed() map[int]bool {
+	if v.Doc.Shape != nil {
+		return factsOf(v.Doc).listed
+	}
+	m := map[int]bool{}
+	for _, k := range v.Doc.VMs {
+		m[k] = true
+	}
+	return m
+}
+
 func (v mver) deactivated() bool { return len(v.Doc.Ctrl) == 0 && len(v.capInv()) == 0 }
+
+// deadAt: index of the first deactivated version of DID d, -1 if none. Once deactivated, always deactivated: versions
+// from that index on (the deactivation itself and whatever is published for the DID afterwards, e.g. a repeated
+// creation by the holder of the original key) never make the DID an active controller again and authorise nothing
+// for OTHER DIDs. The deactivated DID itself: the statement judges an update by "the version it succeeds", so a
+// further version of a deactivated (re-created) document is admitted when the content of the version it succeeds
+// authorises the key (own capabilityInvocation key, or a key of an active controller that content names); such a
+// version is recorded as an observation and the DID must stay deactivated (checkStored).
+func (m *model) deadAt(d int) int {
+	for i, v := range m.versions[d] {
+		if v.deactivated() {
+			return i
+		}
+	}
+	return -1
+}
+
+func (m *model) dead(d int) bool { return m.deadAt(d) >= 0 }
+
+// live: the versions of d before its deactivation.
+func (m *model) live(d int) []mver {
+	if i := m.deadAt(d); i >= 0 {
+		return m.versions[d][:i]
+	}
+	return m.versions[d]
+}
 
 type model struct {
 	versions [nDIDs][]mver
@@ -41,20 +88,46 @@ type model struct {
 // document DID character for character, the rest must be the RFC 7638 thumbprint); verificationMethod ids unique;
 // string entries of a relationship name a listed method; every service id = <document DID> + '#' + non-empty
 // fragment, service ids unique, at most one service per type.
-// Deliberately admitted (the statement does not forbid it clearly): a service fragment that itself contains '#'.
+// Deliberately admitted (the statement does not forbid it clearly): a service fragment that itself contains '#'; a
+// relationship entry that is a relative reference ("#fragment") to a listed method; a well-formed method that is
+// embedded in a relationship more than once or both listed and embedded (same id, same key: no id stands for two keys).
 func wellFormed(d docSpec) (bool, string) {
-	if d.Invalid == "" && d.Extra == nil {
+	if d.Invalid == "" && d.Extra == nil && d.Shape == nil {
 		return true, "" // plain valid templates (fast path; the predicate below agrees, checked at start-up)
 	}
-	return wellFormedPayload(buildPayload(d))
+	// everything else is judged on the payload (memoised by DID + name: the name of a variant is its full structural label)
+	key := fmt.Sprintf("%d|%s", d.DID, d.Name)
+	wfMu.Lock()
+	defer wfMu.Unlock()
+	if v, ok := wfMemo[key]; ok {
+		return v.ok, v.why
+	}
+	ok, why := wellFormedPayload(buildPayload(d))
+	wfMemo[key] = wfVerdict{ok, why}
+	return ok, why
 }
 
+type wfVerdict struct {
+	ok  bool
+	why string
+}
+
+var (
+	wfMu   sync.Mutex
+	wfMemo = map[string]wfVerdict{}
+)
+
+// ecThumbprint: RFC 7638 thumbprint of an EC key ({crv, kty, x, y}) or an OKP key ({crv, kty, x}), computed by hand.
 func ecThumbprint(jwk map[string]any) string {
 	s := func(k string) string { v, _ := jwk[k].(string); return v }
 	b, _ := json.Marshal(s("crv"))
 	x, _ := json.Marshal(s("x"))
 	y, _ := json.Marshal(s("y"))
-	sum := sha256.Sum256([]byte(`{"crv":` + string(b) + `,"kty":"EC","x":` + string(x) + `,"y":` + string(y) + `}`))
+	in := `{"crv":` + string(b) + `,"kty":"EC","x":` + string(x) + `,"y":` + string(y) + `}`
+	if jwk["kty"] == "OKP" {
+		in = `{"crv":` + string(b) + `,"kty":"OKP","x":` + string(x) + `}`
+	}
+	sum := sha256.Sum256([]byte(in))
 	return base64.RawURLEncoding.EncodeToString(sum[:])
 }
 
@@ -79,8 +152,8 @@ func methodOK(m map[string]any, docID string) string {
 		return why
 	}
 	jwk, ok := m["publicKeyJwk"].(map[string]any)
-	if !ok || jwk["kty"] != "EC" {
-		return "no EC publicKeyJwk"
+	if !ok || (jwk["kty"] != "EC" && jwk["kty"] != "OKP") {
+		return "no EC / OKP publicKeyJwk"
 	}
 	if frag != ecThumbprint(jwk) {
 		return "fragment is not the thumbprint of the key"
@@ -136,6 +209,9 @@ func wellFormedPayload(payload []byte) (bool, string) {
 		for _, v := range list(doc[rel]) {
 			switch x := v.(type) {
 			case string:
+				if strings.HasPrefix(x, "#") {
+					x = docID + x // relative DID URL (DID-core): relative to the document's DID; deliberately admitted
+				}
 				if !listed[x] {
 					return false, rel + ": reference to a method that is not listed"
 				}
@@ -190,7 +266,11 @@ func (m *model) acceptUpdateTier1(e event) bool {
 		}
 	}
 	for c := range ctrl {
-		for _, w := range m.versions[c] {
+		vs := m.live(c) // a controller's versions count up to its deactivation
+		if c == t {
+			vs = m.versions[t]
+		}
+		for _, w := range vs {
 			if w.capInv()[e.SignKey] {
 				return true
 			}
@@ -220,7 +300,7 @@ func (m *model) acceptUpdateTier2(e event) bool {
 // active (itself with a capabilityInvocation key of its own, or another active DID), within the depth limit of 5.
 func (m *model) active(d int, depth int) bool {
 	n := len(m.versions[d])
-	if n == 0 || m.versions[d][n-1].deactivated() {
+	if n == 0 || m.dead(d) {
 		return false
 	}
 	w := m.versions[d][n-1]
@@ -256,4 +336,55 @@ func (m *model) leaves(t int) []mver {
 		}
 	}
 	return out
+}
+
+// methodsInvariant is the part of well-formedness that must hold for every STORED version, also for versions that the
+// store merged from parallel branches: every verification method anywhere in the document (listed or embedded in a
+// relationship) has id == <document DID>#<thumbprint of its own key>, and no id stands for two different keys.
+// Returns where the first offence sits ("" = holds).
+func methodsInvariant(docJSON []byte) (where, why string) {
+	var doc map[string]any
+	if err := json.Unmarshal(docJSON, &doc); err != nil {
+		return "document", "stored document is not JSON"
+	}
+	list := func(v any) []any {
+		switch x := v.(type) {
+		case nil:
+			return nil
+		case []any:
+			return x
+		}
+		return []any{v}
+	}
+	docID, _ := doc["id"].(string)
+	keyOf := map[string]string{}
+	check := func(where string, v any) (string, string) {
+		m, ok := v.(map[string]any)
+		if !ok {
+			return "", ""
+		}
+		if why := methodOK(m, docID); why != "" {
+			return where, why
+		}
+		id := m["id"].(string)
+		tp := ecThumbprint(m["publicKeyJwk"].(map[string]any))
+		if prev, seen := keyOf[id]; seen && prev != tp {
+			return where, "the id " + id + " stands for two different keys"
+		}
+		keyOf[id] = tp
+		return "", ""
+	}
+	for _, v := range list(doc["verificationMethod"]) {
+		if w, why := check("verificationMethod", v); w != "" {
+			return w, why
+		}
+	}
+	for _, rel := range []string{"authentication", "assertionMethod", "keyAgreement", "capabilityInvocation", "capabilityDelegation"} {
+		for _, v := range list(doc[rel]) {
+			if w, why := check("embedded-in-"+rel, v); w != "" {
+				return w, why
+			}
+		}
+	}
+	return "", ""
 }
